@@ -387,6 +387,9 @@ func (x *Exec) builtin(fr *Frame, st *State, b *ssa.Builtin, cc *ssa.CallCommon,
 		return x.appendOp(st, args[0], args[1], in.(ssa.Value).Type())
 	case "copy":
 		unsupportedf("builtin copy")
+	case "delete":
+		x.mapDelete(st, args[0], args[1], in.Pos())
+		return &Val{}
 	case "ssa:wrapnilchk":
 		if args[0].T == nil {
 			return args[0]
